@@ -496,10 +496,20 @@ func rangeop(elems []any, nonTerminals []lex.Token, defaultField string) ([]any,
 		return elems, nonTerminals, false
 	}
 
+	// the bounds of a range are single terms, never sub expressions
+	if !isTerm(start) || !isTerm(end) {
+		return elems, nonTerminals, false
+	}
+
 	// we consumed four terminals, the :, [, TO, and ]
 	return []any{expr.Rang(
 		term, start, end, (open.Typ == lex.TLSquare && closed.Typ == lex.TRSquare),
 	)}, drop(nonTerminals, 4), true
+}
+
+// isTerm checks whether an expression is a single term (a literal, a wildcard or a regexp).
+func isTerm(e *expr.Expression) bool {
+	return e != nil && (e.Op == expr.Literal || e.Op == expr.Wild || e.Op == expr.Regexp)
 }
 
 func drop[T any](stack []T, i int) []T {
